@@ -126,10 +126,14 @@ func quoteExh(args []string) {
 	verbose := -1
 	count := 0
 	var h uint64
+	nontriv := 0
 	emit := func(s string) {
 		blk := count / 4096
 		if verbose < 0 || blk == verbose {
 			line := quoteLine(s)
+			if token.QuoteSQLString(s) != "\""+s+"\"" {
+				nontriv++ // needs an escape or the other quote character
+			}
 			if why := oracleC15(s); why != "" {
 				fmt.Fprintf(out, "FAIL %s %s\n", hx(s), why)
 			}
@@ -183,6 +187,9 @@ func quoteExh(args []string) {
 	}
 	if count%4096 != 0 && verbose < 0 {
 		fmt.Fprintf(out, "%d %d\n", count/4096+1, h)
+	}
+	if verbose < 0 {
+		fmt.Fprintf(out, "NONTRIV %d\n", nontriv)
 	}
 }
 
